@@ -73,8 +73,8 @@ theorem _root_.KafVerif.C05.hw_le_committed {cfg : Cfg} {s : State} {m : Mem} (h
 
 /-- two consecutive flushes, callbacks delivered in the opposite order -/
 def regressEvs : List Ev :=
-  [.restore, .append 0 1, .flush 0, .seg 0 true, .idx 0 true, .finish 0,
-   .append 1 1, .flush 1, .seg 1 true, .idx 1 true, .finish 1, .pub 1 true]
+  [.restore, .wf 0 1, .flush 0, .seg 0 true, .idx 0 true, .finish 0,
+   .wf 1 1, .flush 1, .seg 1 true, .idx 1 true, .finish 1, .pub 1 true]
 
 def regresses (v : Variant) : Bool :=
   match run v (init ⟨0, 0⟩) regressEvs with
@@ -89,8 +89,8 @@ theorem _root_.KafVerif.C05.fixed_does_not_regress_here : regresses fixed = fals
 
 /-- an empty `Flush` that reads `nextOffset` after re-taking the lock, with an append in between -/
 def aheadEvs : List Ev :=
-  [.restore, .append 0 1, .append 1 1, .flush 0, .seg 0 true, .idx 0 true, .finish 0, .pub 0 true,
-   .flush 1, .append 2 1, .readNext 1, .pub 1 true]
+  [.restore, .wf 0 1, .wf 1 1, .flush 0, .seg 0 true, .idx 0 true, .finish 0, .pub 0 true,
+   .flush 1, .wf 2 1, .readNext 1, .pub 1 true]
 
 def runsAhead (v : Variant) : Bool :=
   match run v (init ⟨0, 0⟩) aheadEvs with
@@ -99,6 +99,58 @@ def runsAhead (v : Variant) : Bool :=
 
 /-- **pre-fix witness (runs ahead, no S3 failure needed)**: next_offset 3 published, offset 2 only in memory. -/
 theorem _root_.KafVerif.C05.old_runs_ahead : runsAhead old = true := by decide
+
+/-! ### `BuildSegment` as a step that may fail -/
+
+theorem storePut_ge_sound {v : Variant} (hv : Sound v) (hw h : Nat) : hw ≤ storePut v hw h := by
+  rw [storePut_sound hv]; omega
+
+/-- **C05 (never regresses) for every sound shape**: also when `BuildSegment` fails (stricter rule, fault oracle) and the
+error exit of `prepareFlush` re-queues. -/
+theorem _root_.KafVerif.C05.hw_mono_sound {v : Variant} (hv : Sound v) (s s' : State) (e : Ev) (h : step v s e = some s') :
+    s.hw ≤ s'.hw := by
+  cases e <;> simp only [step] at h
+  all_goals (repeat' split at h) <;> try (simp at h)
+  all_goals (try subst h)
+  all_goals (try simp [setPc, ackNow, flushEnter_hw, emptyTarget_hw])
+  all_goals (try exact storePut_ge_sound hv _ _)
+
+/-- **C05 (never runs ahead) for every sound shape.**  `hw_le_durable` with `BuildSegment` failing in ANY way (stricter
+input rule, fault oracle) when the error exit of `prepareFlush` re-queues what it drained; or with the source's rule and
+the source's error exit (`fixed`: the build cannot fail on accepted batches, `C01.build_total_on_accepted`). -/
+theorem _root_.KafVerif.C05.hw_le_durable_sound {v : Variant} (hv : Sound v) {cfg : Cfg} {s : State} (h : Reachable v cfg s)
+    {o : Nat} (ho : o < s.hw) : DurableOff s o := by
+  obtain ⟨L, hc, _⟩ := core_of_inv (reachable_inv_of hv h)
+  have hhw := hc.hw
+  obtain ⟨p, hp, hp1, hp2⟩ := Chain_cover hc.chain (Nat.zero_le o) (by omega)
+  obtain ⟨obj, hs, he, hi⟩ := hc.objs p hp
+  have hwf := hc.wf _ _ hs
+  obtain ⟨b, hb, hb1, hb2⟩ := Contig_cover hwf.2 hp1 (by omega)
+  exact ⟨p.1, obj, b, hs, hi, hb, hb1, hb2⟩
+
+/-- A appends an ordinary batch, B a batch declaring -1 records; B's Flush drains both and the (hardened) build fails:
+both dropped, `nextOffset` stays 2; A's empty Flush publishes `nextOffset - 1`. -/
+def buildAheadEvs : List Ev :=
+  [.restore, .wf 0 1, .append 1 1 (-1) 72, .flush 1, .flush 0, .pub 0 true]
+
+def runsAheadOn (v : Variant) (evs : List Ev) : Bool :=
+  match run v (init ⟨0, 0⟩) evs with
+  | some s => decide (0 < s.hw) && (List.range s.hw).any fun o => !durableOffB s o
+  | none => false
+
+/-- **witness for the hardening change** (`BuildSegment` rejects a negative record count, `prepareFlush` unchanged):
+next_offset 2 published with nothing in S3. -/
+theorem _root_.KafVerif.C05.strict_build_runs_ahead :
+    runsAheadOn { fixed with strictBuild := true } buildAheadEvs = true := by decide
+
+/-- the same schedule: the code as it is uploads both batches before anything is published; the re-queueing shape
+publishes nothing -/
+theorem _root_.KafVerif.C05.strict_build_same_schedule :
+    runsAheadOn fixed (buildAheadEvs.take 4 ++ [.seg 1 true, .idx 1 true, .finish 1, .pub 1 true, .flush 0, .pub 0 true]) = false ∧
+    ((run fixed (init ⟨0, 0⟩) (buildAheadEvs.take 4 ++ [.seg 1 true, .idx 1 true, .finish 1, .pub 1 true, .flush 0, .pub 0 true])).map
+      (·.hw)) = some 2 ∧
+    ((run { fixed with strictBuild := true, requeueBuild := true } (init ⟨0, 0⟩) (buildAheadEvs.take 5)).map (·.hw)) = some 0 := by
+  decide
 
 /-- non-vacuity of `hw_le_durable`: reachable states with a positive watermark exist -/
 example : ∃ s, Reachable fixed ⟨0, 0⟩ s ∧ 0 < s.hw := by
